@@ -46,6 +46,57 @@ BUILT['C38'] = ('events', '4/C38',
     'Trusts: the reference interpreter (~150 lines); GW-BASIC manual semantics where the property is silent '
     '(RETURN re-enables unless OFF inside). COM and PLAY traps are not exercised (no serial back end; PLAY not modelled).')
 
+_T = {
+ 'C01': ('chaos', 'Seeded search over session histories of template-generated statements with boundary arguments, stored programs, garbage/torn files to LOAD, typed input, interact-mode sessions and API calls, under injected host I/O errors, clock jumps, Break/pause/key/pen/stick/stream-closed signals at chosen polls, small memory and suspend/resume; Sessions built with documented defaults and through config.Settings. Oracle: only error.Exit or a normal return may leave a Session call (signature = exception type + innermost pcbasic frame); a run that stops polling is reported as a hang.',
+         'No grammar coverage is claimed: statements come from templates. Printers, serial ports and SHELL children are unconfigured/stubbed. Every other machine also reports engine crashes under its own property.'),
+ 'C10': ('mem', 'Seeded search over histories of string assignments, concatenation, LEFT$/RIGHT$/MID$/STRING$ expressions, MID$ statement, LSET/RSET, SWAP, DIM/ERASE, DEF FN calls, FIELD variables, FRE and CLEAR under a per-run memory limit (down to ~150 bytes free) and forced garbage collection at a case-recorded subset of allocation checks; every live variable/element is read back against a dict model after every op; FRE("") must equal the calibrated free space minus records and live string bytes; Out of string space is spurious only if model and engine agree enough is free.',
+         'Exact FRE only while no live string is owned by program text; the forced-GC seam wraps DataSegment.check_free from outside.'),
+ 'C11': ('mem', 'Same histories as C10; after each op the DS:358h-35Dh area pointers must be ordered, PEEK(VARPTR(v)+i) must equal MKI$/MKS$/MKD$ of the variable (length/address and characters for strings), VARPTR$ must encode type and address, all value and string-data ranges must be pairwise disjoint and packed, and assigning one variable must not change another.',
+         'MBF encoding itself is not judged (only self-consistency with MKx$).'),
+ 'C12': ('mem', 'Same machine with array-heavy histories: DIM/auto-DIM in both OPTION BASEs, re-DIM, ERASE+DIM, failed DIM under memory pressure, out-of-range/wrong-rank/negative subscripts; a unique value is written to every element (all tuples up to 600 elements, boundary + scattered tuples above) and read back through the API and BASIC, under forced GC.',
+         'Shapes, bases and tuples are sampled, not enumerated.'),
+ 'C13': ('prog', 'Seeded search over edit histories (line entry/replacement, empty lines, DELETE, RENUM, NEW, SAVE A/B/P + LOAD/MERGE on disk and bound files, AUTO sessions through the keyboard seam) under memory limits, injected I/O errors and torn files; after each op LIST (to a file) must equal a sorted-dict model, a PEEK walk from DS:30h must show ascending links ending in the terminator, and GOTO n must land on line n; failed stores/SAVEs leave the program unchanged, a faulted MERGE leaves base + a prefix.',
+         'CAS1:, EDIT and CHAIN MERGE are not in this machine; equality after a torn binary file is not claimed.'),
+ 'C14': ('prog', 'Generated programs with every reference kind and armed error/event traps are run in two Sessions under one poll-keyed schedule; arm A executes RENUM where arm B resets the same stacks without renumbering. LIST must equal the model renumbering (references, kept missing targets, Undefined line notes, accept/reject), the line links must hold, and every later probe (direct ERROR n, GOTO wait-loop with a scheduled key/timer/pen/strig event, RUN) must give the same output in both arms once line numbers are mapped back.',
+         'COM and PLAY traps are not exercised; comparison stops when a dangling reference is captured by a new line number.'),
+ 'C15': ('save', 'Seeded search over save/restart/load transactions on Z:, the @: bound-file device and CAS1: images: B and ,P round trips must restore a byte-identical PEEK image, ASCII round trips (LOAD, MERGE) the same listing; I/O errors on save must give a BASIC error and leave program memory unchanged; torn files must not crash; the command-line converter must produce the same bytes as SAVE in a session; the cipher is checked as a bijection over every (position mod 143, byte) pair and random lengths.',
+         'ASCII equality only for canonical programs; WAV images are not used here.'),
+ 'C16': ('save', 'Information-flow search with hide_protected=True: a generated program with unique 12-byte markers in REM/DATA/never-printed literals is saved ,P and loaded; direct-mode histories (LIST/LLIST/EDIT/SAVE/PEEK sweeps/BSAVE/MERGE/CHAIN MERGE/line entry/POKE of the flag/READ/F-key macros/AUTO/RUN with Ctrl-Break at chosen positions/torn and faulted loads/error handlers) must never put a 6-byte window of a marker into the output pipe, get_chars, video update signals, variables, LPT1 capture, tape image or any scratch file that is not a ,P file; listed statements must give error 5, SAVE ,P must succeed, and the run output must equal the unprotected original.',
+         'Suspend/resume, event traps and SHELL are not in the histories.'),
+ 'C20': ('errfn', 'Generated DEF FN programs (0-4 typed parameters named like globals, bodies that can block on INPUT$/INKEY$ or fail) run in interact mode; each call is bracketed by a dump of a fixed roster. Interrupts are delivered when the call is blocked: a key, Ctrl-Break then CONT, QUIT then suspend/resume, a trapped F1; forced GC and memory pressure. Dump after = dump before (except the target), results/errors against a small reference evaluator, recursion gives error 7.',
+         'An interrupted statement may be abandoned or re-executed; results in rounding/soft-float corners are unjudged.'),
+ 'C21': ('errfn', 'Programs with multi-statement lines, nested subroutines and a handler choosing RESUME/RESUME NEXT/RESUME n/ON ERROR GOTO 0/error-in-handler; fault sites are ERROR n, 15 real runtime faults and device statements whose host call fails with a chosen errno for the first r attempts (RESUME as a retry loop). A reference model of statement pointer, GOSUB stack, trap state and remaining fault counts must produce the same event trace; bounded liveness: polls <= 6 x model steps + c once faults stop.',
+         'Comparison stops at corners the property leaves open (RESUME n to a missing line, RETURN into a replaced direct line).'),
+ 'C23': ('chain', 'Random variable/array/string state (also near the memory limit), DEF FN, DEFtype, OPTION BASE, live GOSUB/FOR stacks, armed traps, advanced RND/READ state, then CLEAR / NEW / RUN n / CHAIN [MERGE] [,ALL][,DELETE] to a second generated program with random COMMON lists, under forced GC, memory pressure and I/O errors on the chained file; after a reset everything must read as in a fresh session; after CHAIN exactly the commons survive with identical contents and survive later allocations.',
+         'OPTION BASE after CHAIN and a CHAIN ending in error 7/14 with little memory are unjudged.'),
+ 'C24': ('files', 'Seeded search over sequential-file histories (OPEN in both syntaxes, WRITE#, PRINT#, INPUT#, LINE INPUT#, INPUT$, EOF, LOF, CLOSE, APPEND, Session restart) against a per-file record model, with one injected host fault at a time on write/read/open/close/stat/seek/truncate: read fault => BASIC error and no wrong value, write/close fault => BASIC error and the host file is a prefix-consistent version of what was acknowledged; everything acknowledged by a successful CLOSE is there after restart.',
+         'LF inside strings only with soft_linefeed; 255-character items are a known finding.'),
+ 'C25': ('files', 'Random-file histories (three OPEN syntaxes, record lengths 1-255, FIELD layouts, LSET/RSET, PUT/GET with implicit/repeated/gapped/boundary record numbers, LOF, LOC, reopen with another length, restart) against a bytearray model per host file; a failed PUT leaves the record old, new or a prefix of new, every other byte unchanged; record numbers outside 1..2^25 give error 63.',
+         'Two file numbers on one file keep separate buffers as in GW-BASIC (known finding).'),
+ 'C26': ('files', 'Histories of 2-3 file numbers on one file: OPEN modes/ACCESS/LOCK clauses, LOCK/UNLOCK with contained/containing/overlapping/adjacent/whole-file ranges, GET/PUT, CLOSE. Implementation-independent oracle: the set of acknowledged locks never holds two overlapping ranges, an overlapping LOCK gives error 70, GET/PUT inside a range held through another number fails, UNLOCK succeeds iff exactly that range is held.',
+         'Second open of a file held for OUTPUT/APPEND in INPUT/RANDOM mode is accepted as in GW-BASIC 3.23 (known finding).'),
+ 'C27': ('fs', 'Monitor search: every file statement with path strings over drive prefixes, separators, dots, dot-blank elements, wildcards, long/non-ASCII names, CHDIR histories and another party changing the mounts; during each statement every wrapped FS call and every audit-hook event must resolve inside a mount root (fixed allow-list: devnull, read-only package data); sentinel files outside the mounts must be byte- and mode-identical at the end and never appear in output or inside the mounts.',
+         'Symlinks inside mounts are outside the property; mutating calls outside the scratch tree are refused by the sandbox guard after being recorded.'),
+ 'C28': ('fs', 'Name-mapping search on mounts pre-populated with mixed-case, long, non-ASCII and colliding names, with files vanishing/appearing between statements: create/read/KILL/NAME/FILES under random capitalisations judged against the live host directory (each file carries a unique number): legal 8.3 names are created in upper case, .BAS is added exactly when a program name has no dot, any capitalisation reaches the same file, illegal names give error 64, FILES lists every visible file under the name that opens it.',
+         'Which of several pre-existing case-colliding host files is picked is unjudged; a collision added by another party is a known finding.'),
+ 'C29': ('cas', 'Tape search: 1-4 files per CAS (88%) or WAV (12%) image (data files via PRINT#/WRITE#, SAVE B/A/P, BSAVE) with lengths biased to 0, 1, k*255+-2, k*256+-1, k*255+164; Session restarted on the same image; files found by name in order or shuffled with deliberate misses; Found/Skipped messages, contents, EOF, BLOAD guard bytes compared with the model; torn/bit-flipped tails must leave earlier files intact and never crash or wedge the device.',
+         'Overwriting mid-tape and CHAIN/RUN from tape are not exercised.'),
+ 'C30': ('display', 'On the display simulation: random graphics statements (PSET PRESET LINE CIRCLE PAINT DRAW PUT VIEW WINDOW GET) with coordinates inside/at/far outside, in every graphics mode of the adapter, with SCREEN ,,apage,vpage; all pages are snapshotted before and after: only the active page may change and only inside the viewport current at the start; the reference display must not change while the active page is hidden; in text modes the statements must trap error 5 and change nothing.',
+         'Hidden pages are read with the same expression get_pixels uses (cross-checked on the visible page).'),
+ 'C35': ('display', 'Two-party search: the engine and a reference display that applies the recorded video signals exactly as the shipped front ends do (real VideoPlugin dispatch), with consumer lag from 0 to 1000 signals (the engine back-pressure loop runs), over PRINT/control codes/DBCS text, scroll bursts, CLS, COLOR, LOCATE, VIEW PRINT, WIDTH, SCREEN mode/page switches, PCOPY, KEY ON/OFF, PALETTE, graphics, typed input with editing keys, on all adapters and several codepages; whenever the backlog is empty canvas == get_pixels and text == get_chars; after suspend/resume a freshly attached display must equal the old one.',
+         'Palette RGB values, blink, caption and clipboard signals are not compared.'),
+ 'C36': ('display', 'Same machine: CSRLIN/POS inside the screen and equal to where the reference placement model says the next character lands; LOCATE r,c puts the cursor there or gives error 5; a landing probe PRINT "x"; must hit the reported cell; SCREEN(r,c) equals the model cell; plain text on a cleared screen follows a deferred-wrap placement model; rows outside an active VIEW PRINT window are unchanged.',
+         'Control-code effects and PRINT zones re-sync the model from the engine instead of being judged.'),
+ 'C41': ('codepage', 'Chunk-schedule search: one byte stream per run (rich in lead/trail/box-drawing bytes) is converted at once, in the seeded chunks and bytewise through Converter.to_unicode, _mark and OutputStreamWrapper.write, with and without box protection, for DBCS + 6 SBCS codepages (quick) or all 48 (thorough): results must be equal, _mark sequences must concatenate to the input; a finite table audit per codepage checks both round-trip clauses.',
+         'Chunk-invariance of InputStreamWrapper and equality with a reference splitter go beyond the property and are recorded as observations only.'),
+ 'C42': ('play', 'Timer-queue search: random MML over consecutive PLAY statements (state persists), foreground and background, with more than 32 notes, sleep(0) jitter, clock jumps and Ctrl-Break; a reference MML interpreter must produce the recorded AUDIO_TONE (frequency, duration) list in every schedule arm; malformed strings give error 5 after a prefix of the reference; bounded liveness: foreground PLAY returns by the queue end (+2 ticks), background PLAY does not block below 32 waiting entries, PLAY stops one tick after Break.',
+         'Tandy/PCjr voices and odd number syntaxes are unjudged.'),
+ 'C44': ('clock', 'Clock-seam search: TIME$/DATE$ set and read with valid, invalid and odd shapes, interleaved with simulated sleeps from 0.3 s to 800 days, starts near midnight, month ends, 29 Feb, 1999/2000 and the 1980/2099 limits, and clock jumps; the BASIC clock is modelled as host clock + offset held as candidate intervals, every read must intersect them; invalid values give error 5 and change nothing; ENVIRON/ENVIRON$ against a dict keyed by upper-case name, os.environ restored after each run.',
+         'After a clock jump only no-crash is required until the next full read re-learns the clock.'),
+}
+for _p, (_m, _text, _note) in _T.items():
+    BUILT[_p] = (_m, '4/' + _p, _text + ' Exploration (seeded sampling of histories/schedules/faults) is the level this property can be given by simulation.', _note)
+
 PURE = {
     'C02': 'pure function of two 16-bit operands: no schedule, clock, fault or history for a simulator to own (needs exhaustive enumeration/SMT)',
     'C03': 'pure function of a bit pattern: not a simulation target',
